@@ -511,7 +511,7 @@ def c20_scenarios(tier):
         out.append({"streams": s_, "targets": t, "commands": c, "short": True, "foreign": True})
     # filter values given twice
     out.append({"streams": ["--stdout", "--stderr"], "targets": ["a", "a"], "commands": ["build", "build"], "short": True})
-    out.append({"streams": ["--stderr", "--stderr"], "targets": [B20, "a", B20], "commands": [], "short": True})
+    out.append({"streams": ["--stderr"], "targets": [B20, "a", B20], "commands": [], "short": True})
     # a failing member: its sibling is cancelled while it has output that no periodic flush has handled
     for s_, t, c in [(["--stdout", "--stderr"], [], []), (["--stderr"], [], ["test"]), (["--stdout"], [B20], [])]:
         out.append({"streams": s_, "targets": t, "commands": c, "short": True, "sibling_fails": True})
